@@ -3,7 +3,9 @@ import json
 
 import container as C
 
-RULE = ("seeded histories (length<=12) of add/remove/replace/five setters/reopen, valid and invalid variants, on start files: "
+RULE = ("exhaustive: all histories of length<=3 (thorough 4) over add/remove/replace of four blocks with IDENTICAL encoded sizes on tables of 3 and 14 slots; "
+        "exhaustive: all histories of length<=2 (quick) / <=4 (thorough) over a 12-operation alphabet on empty tables of 1,2,3 slots; "
+        "seeded histories (length<=12) of add/remove/replace/five setters/reopen, valid and invalid variants, on start files: "
         "fresh Tdf.new (N=14), pre-populated compact files with N in {1,2,3,5,14} incl. opaque blocks of undecodable types, "
         "(thorough) the BTS capture; after EVERY call the file is read independently and judged by Lean's wfB; "
         "non-trivial = >=2 successful mutations incl. a remove/replace/setter; distinct by (start, history)")
@@ -28,15 +30,20 @@ def judge(ctx, r):
 
 
 def run(ctx):
+    import itertools
     styles = STYLES + (["capture"] if ctx.thorough else [])
-    runs = C.explore(ctx, ctx.n(600, 8000), 12, styles, p_invalid=0.2)
-    for r in runs:
+    # exhaustive: every history of length <= 2 (quick) / <= 4 (thorough) over a 12-symbol alphabet, on empty tables of 1, 2, 3 slots
+    depth = 4 if ctx.thorough else 2
+    gens = [C.explore(ctx, ctx.n(600, 6000), 12, styles, p_invalid=0.2)] + [C.explore_exhaustive(ctx, n, depth) for n in (1, 2, 3)] \
+        + [C.explore_equal_sizes(ctx, depth=4 if ctx.thorough else 3)]
+    for r in itertools.chain(*gens):
         ctx.case((r.desc, str(C.jsonable_hist(r.hist))), nontrivial=C.nontrivial_history(r),
                  sample=dict(start=r.desc, ops=[s["op"][0] + ":" + s["real"] for s in r.steps]), tags=C.history_tags(r))
         if not r.fc_start["wf"]:
             raise RuntimeError(f"generator produced a start file that is not well-formed: {r.desc}")
         C.correspondence(ctx, r)
         judge(ctx, r)
+    ctx.notes.append(f"exhaustive part: all histories of length <= {depth} over 12 operations for N in {{1,2,3}}")
 
 
 def replay(path):
